@@ -13,12 +13,12 @@ two engine objects on one library) over `Model/Sampler.lean`.  In the model a ca
 faults (use of a non-live object, double delete, output buffer overflow).
 
 What holds and what does not (both shown here):
-* every clause holds for histories of ONE engine object that respect the documented lifecycle;
-* `independent` is FALSE (two objects share the native simulation): negation witness below — recorded known finding;
-* calling a drive / sample / output function on a released engine dereferences a freed object (`fault`):
-  witness below — reported finding `use-after-finalize`;
-* `iterate_n(k ≤ 0)` on a completed simulation sets the wrapper status back to "unfinished":
-  witness below — reported finding `iterate_n-nonpositive-resets-completion`.
+* every clause holds for histories of ONE engine object with valid scripts, in any order of calls (every native
+  entry point first tests `global_algo_freed`, so calls on a released engine return "finished" / nothing);
+* `independent` is FALSE (two objects share the native simulation): negation witness below — recorded known finding.
+(Two defects found with this check were fixed in the repository: calls on a released engine crashed — 3624ce1;
+`iterate_n(k ≤ 0)` reset the completion status — 4bbc3f0.  The theorems `use_after_finalize_safe` and
+`iterate_n_nonpositive_keeps_status` state the repaired behaviour.)
 -/
 import Strengths.Proofs.Lifecycle
 import Strengths.Gen.ScriptPy
@@ -41,12 +41,12 @@ theorem native_globals_text :
 
 theorem entry_points_text :
     Gen.body_engineexport_finalize = "if(global_algo_freed)return0;if(global_space_type==0)deleteglobal_grid_algo;elsedeleteglobal_graph_algo;global_algo_freed=true;return0;" ∧
-    Gen.body_engineexport_iterate = "boolunfinished=true;if(global_space_type==0)unfinished=global_grid_algo->Iterate();elseif(global_space_type==1)unfinished=global_graph_algo->Iterate();returnunfinished;" ∧
-    Gen.body_engineexport_iterate_n = "boolunfinished=true;for(inti=0;i<n_iterations;i++){if(global_space_type==0)unfinished=global_grid_algo->Iterate();elseif(global_space_type==1)unfinished=global_graph_algo->Iterate();if(!unfinished)break;}returnunfinished;" ∧
-    Gen.body_engineexport_run = "boolunfinished=true;autot0=std::chrono::system_clock::now();for(;;){if(global_space_type==0)unfinished=global_grid_algo->Iterate();elseif(global_space_type==1)unfinished=global_graph_algo->Iterate();intdt=static_cast<int>(std::chrono::duration_cast<std::chrono::milliseconds>(std::chrono::system_clock::now()-t0).count());if(!unfinished||dt>=breathe_dt)break;}returnunfinished;" ∧
-    Gen.body_engineexport_sample = "if(global_space_type==0)global_grid_algo->Sample();elseglobal_graph_algo->Sample();return0;" ∧
-    Gen.body_engineexport_get_progress = "doubleprogress=0;if(global_space_type==0)progress=global_grid_algo->GetProgress();elseif(global_space_type==1)progress=global_graph_algo->GetProgress();returnprogress;" ∧
-    Gen.body_engineexport_get_nsamples = "if(global_space_type==0)returnglobal_grid_algo->NSamples();elsereturnglobal_graph_algo->NSamples();" :=
+    Gen.body_engineexport_iterate = "if(global_algo_freed)return0;boolunfinished=true;if(global_space_type==0)unfinished=global_grid_algo->Iterate();elseif(global_space_type==1)unfinished=global_graph_algo->Iterate();returnunfinished;" ∧
+    Gen.body_engineexport_iterate_n = "if(global_algo_freed)return0;boolunfinished=true;for(inti=0;i<n_iterations;i++){if(global_space_type==0)unfinished=global_grid_algo->Iterate();elseif(global_space_type==1)unfinished=global_graph_algo->Iterate();if(!unfinished)break;}returnunfinished;" ∧
+    Gen.body_engineexport_run = "if(global_algo_freed)return0;boolunfinished=true;autot0=std::chrono::system_clock::now();for(;;){if(global_space_type==0)unfinished=global_grid_algo->Iterate();elseif(global_space_type==1)unfinished=global_graph_algo->Iterate();intdt=static_cast<int>(std::chrono::duration_cast<std::chrono::milliseconds>(std::chrono::system_clock::now()-t0).count());if(!unfinished||dt>=breathe_dt)break;}returnunfinished;" ∧
+    Gen.body_engineexport_sample = "if(global_algo_freed)return0;if(global_space_type==0)global_grid_algo->Sample();elseglobal_graph_algo->Sample();return0;" ∧
+    Gen.body_engineexport_get_progress = "if(global_algo_freed)return0;doubleprogress=0;if(global_space_type==0)progress=global_grid_algo->GetProgress();elseif(global_space_type==1)progress=global_graph_algo->GetProgress();returnprogress;" ∧
+    Gen.body_engineexport_get_nsamples = "if(global_algo_freed)return0;if(global_space_type==0)returnglobal_grid_algo->NSamples();elsereturnglobal_graph_algo->NSamples();" :=
   ⟨rfl, rfl, rfl, rfl, rfl, rfl, rfl⟩
 
 theorem wrapper_text :
@@ -55,7 +55,8 @@ theorem wrapper_text :
     Gen.wrapperSetupHead = ["self._script=script.copy()", "self._simulation_unfinished=1"] ∧
     Gen.wrapper_run = ["self._simulation_unfinished=self._lib.engineexport_run(breathe_dt)", "returnbool(self._simulation_unfinished)"] ∧
     Gen.wrapper_iterate = ["self._simulation_unfinished=self._lib.engineexport_iterate()", "returnbool(self._simulation_unfinished)"] ∧
-    Gen.wrapper_iterate_n = ["self._simulation_unfinished=self._lib.engineexport_iterate_n(n_iterations)", "returnbool(self._simulation_unfinished)"] ∧
+    Gen.wrapper_iterate_n = ["ifn_iterations<=0:returnbool(self._simulation_unfinished)",
+      "self._simulation_unfinished=self._lib.engineexport_iterate_n(n_iterations)", "returnbool(self._simulation_unfinished)"] ∧
     Gen.wrapper_get_progress = ["progress=self._lib.engineexport_get_progress()", "returnfloat(progress)"] ∧
     Gen.wrapper_sample = ["self._lib.engineexport_sample()"] ∧
     Gen.wrapper_is_complete = ["returnnotbool(self._simulation_unfinished)"] ∧
@@ -67,11 +68,11 @@ theorem wrapper_text :
 /-! ## 2. every call returns -/
 
 /-- Full statement: for every valid script every lifecycle call returns.
-PARTIAL: proved for histories of one engine object that respect the documented lifecycle (`Respecting`:
-valid scripts; between `finalize` and the next `setup` only `finalize` / `is_complete` / `setup`), as
-"no call faults".  Missing: (i) termination of the native loops inside one step and of the initial-state
-redistribution loop is not modelled here (the step is an abstract total function; the redistribution loop
-is C14's `redist_progress`), (ii) calls on a released engine DO fault (`use_after_finalize_faults`). -/
+PARTIAL: proved, as "no call faults", for ALL histories of one engine object whose scripts are valid
+(`Respecting`: marshalling does not raise) — any order of calls, including calls on a released engine.
+Missing: termination of the native loops inside one step and of the initial-state redistribution loop is not
+modelled here (the step is an abstract total function; the redistribution loop is C14's `redist_progress`);
+the harness observes it with time-outs. -/
 theorem every_call_returns_partial (h : List (Call σ ω)) (hr : Respecting false h) :
     ∀ ob ∈ ((World.boot : World σ ω).runHist (h.map fun c => (Obj.A, c))).2, ob ≠ Obs.fault :=
   respecting_no_fault h false _ boot_good hr
@@ -125,11 +126,11 @@ theorem status_reset_by_setup (w : World σ ω) (o : Obj) (sc : Setup σ ω) (hc
     rw [call_isComplete _ _ (by show (w.setObj o _).crashed = false; rw [setObj_crashed]; exact hc)]
     cases o <;> rfl
 
-/-- along a lifecycle-respecting history, whenever `is_complete()` would answer `true` the CURRENT native
-simulation is complete -/
+/-- along a history with valid scripts, whenever `is_complete()` would answer `true` while a simulation is set
+up, the CURRENT native simulation is complete -/
 theorem status_refers_to_current_setup (h : List (Call σ ω)) (hr : Respecting false h) :
     let w := ((World.boot : World σ ω).runHist (h.map fun c => (Obj.A, c))).1
-    w.a.unfinished = false → ∀ m, cur w.native = .live m → m.sim.complete = true := by
+    w.a.unfinished = false → w.native.freed = false → ∀ m, cur w.native = .live m → m.sim.complete = true := by
   have key : ∀ (h : List (Call σ ω)) (live : Bool) (w : World σ ω), Good live w → Respecting live h →
       ∃ live', Good live' (w.runHist (h.map fun c => (Obj.A, c))).1 := by
     intro h
@@ -185,33 +186,42 @@ theorem other_object_keeps_wrapper (w : World σ ω) (c : Call σ ω) : (w.call 
   by_cases hc : w.crashed = true
   · rw [call_crashed w _ _ hc]
   · simp only [Bool.not_eq_true] at hc
-    have hon : ∀ f : NSim σ ω → World σ ω × Obs ω, (∀ m, (f m).1.a = w.a) → (w.onSim f).1.a = w.a := by
-      intro f hf
-      cases hp : cur w.native with
-      | live m => rw [onSim_live w f m hp]; exact hf m
-      | null => rw [onSim_null w f hp]; rfl
-      | dangling => rw [onSim_dangling w f hp]; rfl
+    have hon : ∀ (d : World σ ω × Obs ω) (f : NSim σ ω → World σ ω × Obs ω), d.1.a = w.a → (∀ m, (f m).1.a = w.a) →
+        (w.onSim d f).1.a = w.a := by
+      intro d f hd hf
+      by_cases hfr : w.native.freed = true
+      · rw [onSim_freed w d f hfr]; exact hd
+      · simp only [Bool.not_eq_true] at hfr
+        cases hp : cur w.native with
+        | live m => rw [onSim_live w d f m hfr hp]; exact hf m
+        | null => rw [onSim_null w d f hfr hp]; rfl
+        | dangling => rw [onSim_dangling w d f hfr hp]; rfl
+    have hout : ∀ m, (w.outputOf .B m).1.a = w.a := by
+      intro m
+      unfold outputOf
+      cases (w.obj .B).script with
+      | none => rfl
+      | some sc => dsimp only; split <;> [rfl; (split <;> rfl)]
+    have houtd : (w.outputDead .B).1.a = w.a := by
+      unfold outputDead
+      cases (w.obj .B).script with
+      | none => rfl
+      | some sc => rfl
     cases c with
     | setup sc =>
       by_cases hr : sc.raises = true
       · rw [call_setup_raises w _ _ hc hr]; rfl
       · simp only [Bool.not_eq_true] at hr; rw [call_setup_ok w _ _ hc hr]; rfl
-    | iterate => rw [call_iterate w _ hc]; exact hon _ (fun m => rfl)
+    | iterate => rw [call_iterate w _ hc]; exact hon _ _ rfl (fun m => rfl)
     | iterateN n =>
-      by_cases hn : n.toNat = 0
-      · rw [call_iterateN_zero w _ _ hc hn]; rfl
-      · rw [call_iterateN_pos w _ _ hc hn]; exact hon _ (fun m => rfl)
-    | run k => rw [call_run w _ _ hc]; exact hon _ (fun m => rfl)
-    | sample => rw [call_sample w _ hc]; exact hon _ (fun m => rfl)
-    | getProgress => rw [call_getProgress w _ hc]; exact hon _ (fun m => rfl)
+      by_cases hn : n ≤ 0
+      · rw [call_iterateN_nonpos w _ _ hc hn]
+      · rw [call_iterateN_pos w _ _ hc hn]; exact hon _ _ rfl (fun m => rfl)
+    | run k => rw [call_run w _ _ hc]; exact hon _ _ rfl (fun m => rfl)
+    | sample => rw [call_sample w _ hc]; exact hon _ _ rfl (fun m => rfl)
+    | getProgress => rw [call_getProgress w _ hc]; exact hon _ _ rfl (fun m => rfl)
     | isComplete => rw [call_isComplete w _ hc]
-    | getOutput =>
-      rw [call_getOutput w _ hc]
-      refine hon _ (fun m => ?_)
-      unfold outputOf
-      cases (w.obj .B).script with
-      | none => rfl
-      | some sc => dsimp only; split <;> [rfl; (split <;> rfl)]
+    | getOutput => rw [call_getOutput w _ hc]; exact hon _ _ houtd hout
     | finalize =>
       by_cases hf : w.native.freed = true
       · rw [finalize_of_freed w _ hf hc]
@@ -277,13 +287,15 @@ theorem independent_is_false : ¬ Independent := by
   revert this
   decide +kernel
 
-/-- FINDING `use-after-finalize`: a drive call on a released engine faults (segmentation fault in the real code) -/
-theorem use_after_finalize_faults :
-    obsOf [(.A, .setup scA), (.A, .finalize), (.A, .iterate)] = [.unit, .unit, .fault] := by decide +kernel
+/-- (fixed in 3624ce1) calls on a released engine return at once: "finished", nothing sampled, progress 0, an empty trajectory -/
+theorem use_after_finalize_safe :
+    obsOf [(.A, .setup scA), (.A, .finalize), (.A, .iterate), (.A, .run 3), (.A, .sample), (.A, .getProgress), (.A, .getOutput),
+      (.A, .finalize)] = [.unit, .unit, .bool false, .bool false, .unit, .num 0, .output [] [], .unit] := by decide +kernel
 
-/-- FINDING `iterate_n-nonpositive-resets-completion`: after completion `iterate_n(0)` makes `is_complete()` false again -/
-theorem iterate_n_zero_resets_status :
-    obsOf [(.A, .setup scA), (.A, .iterateN 9), (.A, .isComplete), (.A, .iterateN 0), (.A, .isComplete)] =
-      [.unit, .bool false, .bool true, .bool true, .bool false] := by decide +kernel
+/-- (fixed in 4bbc3f0) `iterate_n(k ≤ 0)` leaves the completion status as it is -/
+theorem iterate_n_nonpositive_keeps_status :
+    obsOf [(.A, .setup scA), (.A, .iterateN 0), (.A, .isComplete), (.A, .iterateN 9), (.A, .isComplete), (.A, .iterateN 0),
+      (.A, .iterateN (-1)), (.A, .isComplete)] =
+      [.unit, .bool true, .bool false, .bool false, .bool true, .bool false, .bool false, .bool true] := by decide +kernel
 
 end Strengths.C10
